@@ -239,7 +239,7 @@ func TestVerifReplay(t *testing.T) {
 					fmt.Printf("VFREPLAY %s PANIC %v failed=%v\n", spec, r, vfFailed)
 					return
 				}
-				fmt.Printf("VFREPLAY %s DONE failed=%v desync=%v\n", spec, vfFailed, vfDesync)
+				fmt.Printf("VFREPLAY %s DONE failed=%v desync=%v reached=%v\n", spec, vfFailed, vfDesync, vfReached)
 			}()
 			vfLoad(parts[1])
 			h()
@@ -381,6 +381,7 @@ def run_property(prop, tier, jobs, meta, seed=0, procs=None):
     agg = {'paths': 0, 'instrs': 0, 'q_sat': 0, 'q_unsat': 0, 'q_unknown': 0, 'solver_s': 0.0, 'proved': 0, 'failed': 0,
            'unsupported': {}, 'unwind': 0, 'reach': {}, 'cuts': {}, 'functions': set(), 'samples': [], 'inconclusive': [], 'errors': [], 'outcomes': {}}
     viols = []
+    wits = []
     for r in results:
         if 'error' in r:
             agg['errors'].append((r['harness'], r['error'][-1500:]))
@@ -401,6 +402,9 @@ def run_property(prop, tier, jobs, meta, seed=0, procs=None):
         for v in r['violations']:
             v['harness_full'] = r['harness']
             viols.append(v)
+        for w in r.get('witnesses', []):
+            w['harness_full'] = r['harness']
+            wits.append(w)
     # ------------------------------------------------------------ replay
     rdir = os.path.join(os.environ.get('VERIF_REPLAY_DIR', os.path.join(VERIF, 'replays')), prop)
     shutil.rmtree(rdir, ignore_errors=True)
@@ -432,9 +436,45 @@ def run_property(prop, tier, jobs, meta, seed=0, procs=None):
                 ok = v['assert'] in failed
             (confirmed if ok else spurious).append(v)
             json.dump(v, open(v['replay'], 'w'), indent=1)
+    # ------------------------------------------------------------ translator validation: replay witnesses of completed paths
+    wit_ok = wit_bad = 0
+    wit_lines = []
+    if wits and not os.environ.get('VERIF_NO_WITNESS'):
+        import random
+        rnd = random.Random(seed)
+        by_h = {}
+        for w in wits: by_h.setdefault(w['harness'], []).append(w)
+        chosen = []
+        per = max(1, 40 // max(1, len(by_h)))
+        for h, ws in sorted(by_h.items()):
+            rnd.shuffle(ws); chosen.extend(ws[:per])
+        wspecs = []
+        for n, w in enumerate(chosen):
+            pth = os.path.join(rdir, 'wit_%03d.json' % n)
+            json.dump(w, open(pth, 'w'), indent=1)
+            w['replay'] = pth
+            wspecs.append((w['harness_full'], pth))
+        try:
+            wr = native_replay(wspecs)
+        except Exception as e:
+            wr = {}
+            agg['errors'].append(('witness-replay', str(e)))
+        for w in chosen:
+            st = wr.get(w['replay'])
+            if st is None or st[0] == 'norun':
+                continue
+            status, failed, raw = st
+            m = re.search(r'reached=\[([^\]]*)\]', raw)
+            reached = m.group(1).split() if m and m.group(1) else []
+            good = status == 'DONE' and not failed and 'desync=true' not in raw and all(x in reached for x in w['reached'])
+            if good: wit_ok += 1
+            else:
+                wit_bad += 1
+                wit_lines.append('INCONCLUSIVE property=%s translator validation: the native run of a completed symbolic path of %s differs (%s) replay=%s' % (prop, w['harness'], raw[:160], w['replay']))
+    replayed += wit_ok + wit_bad
     known = load_known()
     rc = 0
-    lines = []
+    lines = list(wit_lines)
     kf_seen = set()
     new_viol = 0
     for v in confirmed:
@@ -482,6 +522,7 @@ def run_property(prop, tier, jobs, meta, seed=0, procs=None):
             'path_outcomes': agg['outcomes'], 'reachability_markers': agg['reach'], 'paths_cut_outside_bound': agg['cuts'],
             'inconclusive': {'unsupported': agg['unsupported'], 'unwind': agg['unwind'], 'errors': [e[0] for e in agg['errors']]},
             'jobs': len(jobs), 'confirmed_violations': len(confirmed), 'spurious_models': len(spurious),
+            'witness_paths_replayed_natively': {'agree': wit_ok, 'differ': wit_bad},
             'known_findings_seen': sorted(kf_seen),
             'exhaustive': False,
         },
